@@ -11,7 +11,7 @@ for ID in "$@"; do
   D=$(mktemp -d /tmp/sfre.XXXXXX)
   rsync -a --exclude .git --exclude doc --exclude tests --exclude examples /repo/ "$D/"
   SF_REPO="$D" PYTHONPATH="$D" timeout 900 /venv/bin/python "$DST/demo.py" > /dev/null 2>&1; dwo=$?
-  if ! ( cd "$D" && patch -p1 -s --no-backup-if-mismatch < "$DST/patch.diff" > /dev/null 2>&1 ); then
+  if ! ( cd "$D" && { git apply -p1 "$DST/patch.diff" > /dev/null 2>&1 || patch -p1 -s --no-backup-if-mismatch < "$DST/patch.diff" > /dev/null 2>&1; } ); then
     echo "$ID head=$HEAD PATCH-DOES-NOT-APPLY"
     /venv/bin/python - "$DST/meta.json" "$HEAD" <<'PY'
 import json, sys
